@@ -51,7 +51,7 @@ MUTANTS = [
     ("map-key-type-not-compared", R + "decoder.go", "if t0 != kt.WT || t1 != vt.WT {", "if t1 != vt.WT {", ["C05"]),
     ("span-malloc-forgets-alignment-offset", R + "span.go", "s.p += n + int(off)", "s.p += n", ["C06"]),
     ("string-slice-backing-not-scanned", R + "ttype.go", "case reflect.Array, reflect.Map, reflect.Ptr, reflect.Slice, reflect.String, reflect.Struct:", "case reflect.Array, reflect.Map, reflect.Ptr, reflect.Slice, reflect.Struct:", ["C06"]),
-    ("short-strings-alias-input", R + "decoder.go", "		x := d.Malloc(l, 1, 0)\n		if t.Tag == defs.T_binary {", "		x := d.Malloc(l, 1, 0)\n		if l < 4 && t.Tag != defs.T_binary {\n			*(*string)(p) = unsafe.String(&b[i], l)\n			return i + l, nil\n		}\n		if t.Tag == defs.T_binary {", ["C06", "C14"]),
+    ("short-strings-alias-input", R + "decoder.go", "		x := d.Malloc(l, 1, 0)\n		if t.isBinary() {", "		x := d.Malloc(l, 1, 0)\n		if l < 4 && !t.isBinary() {\n			*(*string)(p) = unsafe.String(&b[i], l)\n			return i + l, nil\n		}\n		if t.isBinary() {", ["C06", "C14"]),
     ("bitset-not-cleared", R + "decoder.go", "		for _, f := range sd.requiredFieldIDs {\n			bs.unset(f)\n		}", "		for _, f := range sd.requiredFieldIDs[1:] {\n			bs.unset(f)\n		}", ["C09", "C07"]),
     ("unknown-fields-not-reset", R + "decoder.go", "		ufs.Reset()\n", "		if len(b) > 8 {\n			ufs.Reset()\n		}\n", ["C11", "C07"]),
     ("map-tmp-not-cleared", R + "decoder.go", "			} else if vt.T == tSTRUCT {", "			} else if vt.T == tSTRUCT && j == 0 {", ["C07", "C03", "C01"]),
@@ -76,7 +76,7 @@ MUTANTS = [
     ("trailing-token-check-dropped", D + "types.go", "		} else if tk != \"\" {\n			return nil, ESyntax(i-len(tk), def, fmt.Sprintf(\"unexpected %q after the type\", tk))", "		} else if tk != \"\" && tk != \">\" {\n			return nil, ESyntax(i-len(tk), def, fmt.Sprintf(\"unexpected %q after the type\", tk))", ["C13"]),
     ("rollback-forgets-links", R + "desc.go", "	for _, t := range prefetchLinkedTypes {\n		t.Sd = nil\n	}", "", ["C13"]),
     ("nocopy-binary-keeps-capacity", R + "decoder.go", "		*(*[]byte)(p) = unsafe.Slice(&b[i], l)\n	} else {\n		*(*string)(p) = unsafe.String(&b[i], l)\n	}\n	i += l\n	return\n}", "		*(*[]byte)(p) = b[i : i+l]\n	} else {\n		*(*string)(p) = unsafe.String(&b[i], l)\n	}\n	i += l\n	return\n}", ["C14"]),
-    ("nocopy-empty-points-into-buffer", R + "decoder.go", "	i += 4\n	if l == 0 {\n		if t.Tag == defs.T_binary {\n			*(*[]byte)(p) = []byte{}", "	i += 4\n	if l == 0 {\n		if t.Tag == defs.T_binary {\n			*(*[]byte)(p) = b[i:i:i]", ["C14"]),
+    ("nocopy-empty-points-into-buffer", R + "decoder.go", "	i += 4\n	if l == 0 {\n		if t.isBinary() {\n			*(*[]byte)(p) = []byte{}", "	i += 4\n	if l == 0 {\n		if t.isBinary() {\n			*(*[]byte)(p) = b[i:i:i]", ["C14"]),
     ("nocopy-pointer-form-copied", R + "decoder.go", "			if f.NoCopy {\n				n, err = decodeStringNoCopy(t, b[i:], p)", "			if f.NoCopy && !t.IsPointer {\n				n, err = decodeStringNoCopy(t, b[i:], p)", ["C14"]),
     ("depth-limit-huge", R + "decoder.go", "const maxDepthLimit = 1023", "const maxDepthLimit = 1 << 30", ["C15"]),
     ("depth-test-at-struct-dropped", R + "decoder.go", "func (d *tDecoder) Decode(b []byte, base unsafe.Pointer, sd *structDesc, maxdepth int) (int, error) {\n	if maxdepth == 0 {\n		return 0, errDepthLimitExceeded\n	}", "func (d *tDecoder) Decode(b []byte, base unsafe.Pointer, sd *structDesc, maxdepth int) (int, error) {", ["C15"]),
